@@ -29,6 +29,10 @@ mod type_checker;
 #[path = "/repo/src/unifier.rs"]
 mod unifier;
 
+#[cfg(feature = "verif")]
+#[path = "/repo/src/verif_hooks.rs"]
+mod verif_hooks;
+
 mod ops;
 mod sx;
 mod tx;
